@@ -75,9 +75,17 @@ func c16Check(c C16Case) *ev.Violation {
 		in[i] = md.IndexedEndpointType{Index: e.Index, IsDefault: e.IsDefault, Binding: e.Binding, Location: e.Location}
 	}
 	url, binding := provider.GetAcsUrlAndBindingForResponse(in, c.Requested)
+	// a call for a binding nobody registered (the lowest-index fallback) in between must not change anything:
+	// the registered list is the service provider's metadata, shared by all later requests
+	provider.GetAcsUrlAndBindingForResponse(in, "urn:example:unlisted-interleaved")
 	url2, binding2 := provider.GetAcsUrlAndBindingForResponse(in, c.Requested)
 	if url != url2 || binding != binding2 {
-		return ev.V("C16/nondeterministic", "two calls returned (%q,%q) and (%q,%q)", url, binding, url2, binding2)
+		return ev.V("C16/nondeterministic", "the same call returned (%q,%q) and, after an interleaved call for another binding, (%q,%q)", url, binding, url2, binding2)
+	}
+	for i, e := range c.ACS {
+		if in[i].Location != e.Location || in[i].Binding != e.Binding || in[i].Index != e.Index {
+			return ev.V("C16/registered-list-modified", "the selection reordered or edited the registered list: position %d is now %q", i, in[i].Location)
+		}
 	}
 	want := c16Reference(c.ACS, c.Requested)
 	if len(want) == 0 {
